@@ -430,7 +430,8 @@ META = {
     "SyntaxError/IndentationError the parser reported; the wrapped line is source slices plus '![' and ']' only, "
     "and both phases use that one wrapper; every verdict of the open-triple-quote scanner that logical-line joining "
     "relies on is produced inside or after its quote- and comment-aware scan (the only accepted shortcut is 'no "
-    "marker of either kind occurs'), and the joiners count no markers themselves. Hangs like GH-5839/GH-6011 were exactly missing-progress cycles. "
+    "marker of either kind occurs'), and the joiners count no markers themselves; what is re-inserted into the source is exactly the wrapper's "
+    "(or the recursive wrap's) result, inspected but never edited in between. Hangs like GH-5839/GH-6011 were exactly missing-progress cycles. "
     "Whether the chosen window is right for every line is value-level and not decided.",
     "note": "Decides the listed structural clauses, not the behaviour. Companion facts for two non-trivial progress "
     "assignments are frozen in the catalogue with their reason. PLY and the tokenizer are trusted.",
